@@ -408,6 +408,12 @@ func rule091bounds(r *core.Run, ctx *oblig.Ctx, reach map[*ssa.Function]bool) ma
 // scope under the given rule id (shared by C09, C06, C14).
 func boundsRule(r *core.Run, ctx *oblig.Ctx, ruleID string, reach map[*ssa.Function]bool) map[*ssa.Function][]string {
 	und := map[*ssa.Function][]string{}
+	if len(r.P.ExtraEnv) > 0 {
+		// the compiler's bounds list is imported for the host configuration only
+		r.Info(ruleID, "bounds list not imported for "+strings.Join(r.P.ExtraEnv, " "), "", "host-only obligation source")
+		r.SkipFloor(ruleID)
+		return und
+	}
 	sites, err := oblig.CompilerBounds(r.P)
 	if err != nil {
 		r.Unresolved("R09.1b: %v", err)
